@@ -65,3 +65,41 @@ mtext("C13",
       "trusted: harness model, sim heap, gcc; rel (asserts off, shipped behaviour), dbg (asserts on: a failed library assert is a violation), asan variants",
       "deterministic simulation: seeded operation histories vs reference model inside sim heap (degenerate: no schedule/fault dimension beyond callbacks)",
       "DESIGN.md 4.C13")
+
+V_TREES = {"rel": 0.8, "asan": 0.1, "dbg": 0.1}
+check("C01", "exploration",
+      [dict(world="trees", mode=1, variants=V_TREES, quick=60000, thorough=6000000)],
+      RULE_SEQ, ["src/bintree.c", "src/rbtree.c", "include/cstl/bintree.h", "include/cstl/rbtree.h"],
+      required_probes=["insert_hinted", "erase_leaf", "erase_one_child", "erase_two_children_succ_is_child",
+                       "erase_two_children_succ_deeper", "erase_root", "erase_absent", "foreach_cancel", "find_absent", "find_present"])
+check("C02", "exploration",
+      [dict(world="trees", mode=2, variants=V_TREES, quick=60000, thorough=6000000)],
+      RULE_SEQ, ["src/rbtree.c", "src/bintree.c", "include/cstl/rbtree.h"],
+      required_probes=["insert_hinted", "erase_leaf", "erase_one_child", "erase_two_children_succ_is_child",
+                       "erase_two_children_succ_deeper", "erase_root"])
+check("C07", "exploration",
+      [dict(world="heap", mode=7, variants=V_TREES, quick=60000, thorough=6000000)],
+      RULE_SEQ, ["src/heap.c", "src/common.c", "src/bintree.c", "include/cstl/heap.h"],
+      required_probes=["push_to_2^k", "pop_from_2^k", "pop_empty", "swap"])
+
+mtext("C01",
+      "Seeded random histories (60k quick / 6M thorough; key universes 1..1500 with heavy duplication, ascending/descending/zig-zag streams, hinted and unhinted inserts, "
+      "10% long runs up to 500 elements, 20% small-scope runs) on 0-2 binary and 0-2 red-black trees against a multiset model. After every operation: size, reachable set == model "
+      "(each element once), parent links, in-order monotonicity through the public links; find/erase results checked for identity against the element pool; both traversal directions "
+      "compared visit-by-visit (PRE/MID/POST/LEAF) with an independent reference traversal, with and without cancellation. " + DEGENERATE,
+      "trusted: multiset model, reference traversal over the public node links, sim heap; erased elements are freed and poisoned at once so any later touch is visible",
+      "deterministic simulation: seeded operation histories vs reference model inside sim heap (degenerate: callbacks are the only seam)",
+      "DESIGN.md 4.C01")
+mtext("C02",
+      "Same world restricted to red-black trees: after every insert and erase the root colour, red-red, equal black height on every root-to-NULL path, parent links and "
+      "cstl_rbtree_height (min, max, and max <= 2*log2(n+1)) are audited from the public colour/link fields. " + DEGENERATE,
+      "trusted: recursive audit over public fields; gcc; dbg variant turns library asserts into violations",
+      "deterministic simulation: seeded operation histories with a full red-black audit after every step (degenerate)",
+      "DESIGN.md 4.C02")
+mtext("C07",
+      "Seeded interleavings of push/pop/get/swap/clear on 1-2 heaps (priorities from 1..40 values so ties are common; sizes to 1000 in long runs) against a multiset model: "
+      "get/pop must return a held element of maximal priority, pop removes exactly it, NULL iff empty; after every operation the tree is audited through the public links for "
+      "completeness (every level-order slot 1..n occupied, none beyond), parent>=child and parent links. " + DEGENERATE,
+      "trusted: multiset model and slot-numbering audit; sim heap",
+      "deterministic simulation: seeded operation histories vs reference model inside sim heap (degenerate)",
+      "DESIGN.md 4.C07")
